@@ -163,9 +163,143 @@ def gen_chain(rng, cid, mode='step'):
 
 
 # ------------------------------------------------------------------------------------------------
+# conditions and direct waiters on the same shared events, everything decided inside ONE instant (C02, C05):
+# * a condition over shared events a, b(, c) that one member decides (any_of: the first one triggered; all_of: the first one
+#   that fails) while another member is succeeded / FAILED later in the same instant - in the same burst, by a second process
+#   woken at that instant, or by a child process that raises then - i.e. after the condition was triggered and before it is
+#   processed; the late member has, or has not, a waiter of its own (a failure nobody handles must make the run raise);
+# * processes that wait for a member directly, registered before or after the condition was built over it; on resumption they
+#   trigger another event (slot 5) that a further process awaits: what the waiters of one event cause happens in registration order
+
+def gen_decided(rng, cid, mode='step'):
+    c = Case(cid, mode)
+    n = rng.choice([2, 2, 2, 3])
+    kind = rng.choice(['anyof', 'allof'])
+    t = rng.choice([0, 0.5, 1, 1, 2])
+    names = 400
+    builder = [('event', i) for i in range(n)] + [('event', 5)]
+    c.progs.append(builder)
+    procs = {}                       # member slot -> program index of the child process that IS that member
+    for i in range(n):
+        if rng.random() < 0.2:
+            names += 1
+            c.progs.append([('timeout', 10 + i, t, None), ('yield', 10 + i, 0),
+                            rng.choice([('raise', rng.choice(EXCS), rng.randint(0, 9)), ('raise', rng.choice(EXCS), rng.randint(0, 9)), ('ret', val(rng))])])
+            procs[i] = len(c.progs) - 1
+            builder[i] = ('spawn', i, procs[i], names)
+    if rng.random() < 0.5:
+        builder += [('timeout', 30, rng.choice([0, 0.5]), None), ('yield', 30, 0)]      # direct waiters may register first
+    ops = list(range(n))
+    rng.shuffle(ops)
+    if n == 3 and rng.random() < 0.3:
+        builder.append((rng.choice(['anyof', 'allof']), 22, ops[0], ops[1]))
+        builder.append((kind, 24, 22, ops[2]) if rng.random() < 0.5 else (kind, 24, ops[2], 22))
+        top = 24
+    else:
+        top = rng.choice([20, 21, 21])       # even slot and two operands: written with & / |
+        builder.append((kind, top) + tuple(ops))
+    builder += [('yield', top, rng.choice([0, 0, 0, 2, 3, 12])), ('log', 70)]
+    mains = [(0, 1)]
+    # the triggers: one burst, or spread over processes woken at the same / a later instant
+    free = [i for i in range(n) if i not in procs]
+    rng.shuffle(free)
+    acts = []
+    for i in free:
+        acts.append(('fail', i, rng.choice(EXCS), rng.randint(0, 9)) if rng.random() < 0.55 else ('succeed', i, val(rng)))
+    split = rng.random()
+    groups = [acts] if split < 0.6 else [acts[:1], acts[1:]]
+    for gi, g in enumerate(groups):
+        if not g:
+            continue
+        tg = t if (gi == 0 or split < 0.85) else t + rng.choice([0.5, 1])
+        c.progs.append([('timeout', 14 + gi, tg, None), ('yield', 14 + gi, 0)] + g)
+        mains.append((len(c.progs) - 1, 2 + gi))
+    # direct waiters of the members
+    for i in range(n):
+        if rng.random() < 0.35:
+            prog = []
+            d = rng.choice([0, 0, 0.5, t])
+            if d or rng.random() < 0.3:
+                prog += [('timeout', 16 + i, d, None), ('yield', 16 + i, 0)]
+            prog += [('yield', i, rng.choice([0, 0, 0, 3]))]
+            if rng.random() < 0.6:
+                prog.append(('succeed', 5, 40 + i))
+            prog.append(('log', 60 + i))
+            c.progs.append(prog)
+            mains.append((len(c.progs) - 1, 5 + i))
+    if rng.random() < 0.7:
+        c.progs.append([('yield', 5, 0), ('log', 75)])
+        mains.append((len(c.progs) - 1, 9))
+    if rng.random() < 0.3:
+        c.progs.append([('timeout', 19, t + 2, None), ('yield', 19, 0), ('log', 76)])      # later activity: a lost failure lets it happen
+        mains.append((len(c.progs) - 1, 10))
+    first = mains[0]
+    rest = mains[1:]
+    if rng.random() < 0.6:
+        rng.shuffle(rest)
+    # the builder creates the shared events: it always starts first
+    c.mains = [first] + rest
+    return c
+
+
+# ------------------------------------------------------------------------------------------------
+# trigger order inside the ordinary class (C01): at an instant t at which other occurrences are pending - parked waiters of a
+# `gate` event triggered just before, timeouts due at t, process starts, zero-delay timeouts - a process triggers a fresh event on
+# which nobody waits yet (`ack`) and yields it right away, builds a condition over it, starts a child that yields it, or a
+# process woken later in that instant yields it: the ack takes effect only after everything triggered before it
+
+def gen_ack(rng, cid, mode='step'):
+    c = Case(cid, mode)
+    t = rng.choice([0, 0.5, 1, 1, 2])
+    names = 500
+    driver = [('event', 0)]
+    c.progs.append(driver)
+    rest = []
+    for j in range(rng.randint(0, 2)):                       # parked on the gate
+        c.progs.append([('yield', 0, 0), ('log', 60 + j)] + ([('timeout', 12 + j, 0, None), ('yield', 12 + j, 0), ('log', 62 + j)] if rng.random() < 0.3 else []))
+        rest.append((len(c.progs) - 1, 2 + j))
+    for j in range(rng.randint(0, 3)):                       # sleepers due at t
+        c.progs.append([('timeout', 14 + j, t, val(rng)), ('yield', 14 + j, 0), ('log', 65 + j)])
+        rest.append((len(c.progs) - 1, 5 + j))
+    driver += [('timeout', 20, t, None), ('yield', 20, 0)]
+    if rng.random() < 0.75:
+        driver.append(('succeed', 0, val(rng)))
+    if rng.random() < 0.3:
+        driver += [('timeout', 21, 0, 3), ('probe', 21, 7)]
+    if rng.random() < 0.3:
+        names += 1
+        c.progs.append([('log', 77)])
+        driver.append(('spawn', 6, len(c.progs) - 1, names))
+    for k in range(rng.choice([1, 1, 2])):
+        a = 1 + 2 * k                                        # ack slots 1, 3
+        driver.append(('event', a))
+        bad = rng.random() < 0.2
+        driver.append(('fail', a, rng.choice(EXCS), rng.randint(0, 9)) if bad else ('succeed', a, val(rng)))
+        how = rng.random()
+        if how < 0.5:
+            driver += [('yield', a, 0), ('log', 70 + k)]
+        elif how < 0.7:
+            driver += [(rng.choice(['allof', 'anyof']), 31 + 2 * k, a), ('yield', 31 + 2 * k, 0), ('log', 72 + k)]
+        elif how < 0.85:
+            names += 1
+            c.progs.append([('yield', a, 0), ('log', 74 + k)])
+            driver.append(('spawn', 8 + k, len(c.progs) - 1, names))
+        else:
+            c.progs.append([('timeout', 22 + k, t, None), ('yield', 22 + k, 0), ('yield', a, 0), ('log', 76 + k)])
+            rest.append((len(c.progs) - 1, 9 + k))
+    driver.append(('log', 79))
+    if rng.random() < 0.6:
+        rng.shuffle(rest)
+    c.mains = [(0, 1)] + rest
+    return c
+
+
+# ------------------------------------------------------------------------------------------------
 # resources (C06): processes follow request / hold / release patterns; each process uses one resource
 
 def gen_resource(rng, cid, mode='step'):
+    if rng.random() < 0.12:
+        return gen_preempt_queue(rng, cid, mode)
     c = Case(cid, mode)
     nres = rng.choice([1, 1, 2])
     for _ in range(nres):
@@ -206,6 +340,49 @@ def gen_resource(rng, cid, mode='step'):
                 prog += [('timeout', ts, delay(rng), None), ('yield', ts, 0)]
         c.progs.append(prog)
         c.mains.append((i, i + 1))
+    return c
+
+
+def gen_preempt_queue(rng, cid, mode='step'):
+    """a PreemptiveResource whose slots are taken; a NON-preempting request N queues up; a preempting request P that ranks better
+    than some user but worse than N queues up behind it (queue order forbids serving P first); then N leaves the head of the
+    queue - it reneges (patience timeout, with-exit cancels it) or is served by an ordinary release - and P is re-evaluated from
+    the queue: the eviction is decided while somebody else (or nobody) is the active process"""
+    c = Case(cid, mode)
+    cap = rng.choice([1, 1, 2])
+    c.res.append(('preemptive', cap, 0))
+    slot = 0
+    def add(prog):
+        c.progs.append(prog); c.mains.append((len(c.progs) - 1, len(c.progs)))
+    # the users: take the slots at time 0 (the last one is the bad one), hold, leave through the with-exit (also when evicted)
+    for u in range(cap):
+        bad = u == cap - 1
+        prio = rng.choice([3, 3, 2]) if bad else rng.choice([0, 0, 1])
+        hold = rng.choice([10, 10, 4]) if bad else rng.choice([3, 3, 2, 10])
+        add([('request', slot, 0, prio, rng.random() < 0.3), ('yield', slot, 12), ('timeout', slot + 1, hold, None), ('yield', slot + 1, 10), ('exit', slot, 0)]
+            + ([('timeout', slot + 2, 1, None), ('yield', slot + 2, 0), ('log', 50 + u)] if rng.random() < 0.4 else []))
+        slot += 3
+    # N: non-preempting, better ranked, arrives first
+    tn, tp = rng.choice([(1, 2), (1, 2), (1, 1), (0.5, 1), (2, 1)])
+    nprio = rng.choice([1, 1, 0, 2])
+    prog = [('timeout', slot, tn, None), ('yield', slot, 0), ('request', slot + 1, 0, nprio, False)]
+    if rng.random() < 0.65:
+        prog += [('timeout', slot + 2, rng.choice([2, 2, 1, 0.5]), None), ('anyof', slot + 3, slot + 1, slot + 2), ('yield', slot + 3, 12),
+                 ('exit', slot + 1, 0)]                                                   # reneges (or releases at once when served meanwhile)
+    else:
+        prog += [('yield', slot + 1, 12), ('timeout', slot + 2, rng.choice([1, 2]), None), ('yield', slot + 2, 10), ('exit', slot + 1, 0)]
+    add(prog)
+    slot += 4
+    # P (one or two): preempting, behind N
+    for k in range(rng.choice([1, 1, 2])):
+        pprio = rng.choice([2, 2, 1, 3])
+        add([('timeout', slot, tp + k * rng.choice([0, 0.5]), None), ('yield', slot, 0), ('request', slot + 1, 0, pprio, rng.random() < 0.85),
+             ('yield', slot + 1, 12), ('timeout', slot + 2, rng.choice([1, 1, 3]), None), ('yield', slot + 2, 10), ('exit', slot + 1, 0)])
+        slot += 3
+    if rng.random() < 0.5:
+        first, rest = c.mains[:cap], c.mains[cap:]
+        rng.shuffle(rest)
+        c.mains = first + rest
     return c
 
 
@@ -371,6 +548,63 @@ def gen_until_fail(rng, cid):
     c.plan = [('S', rng.randint(1, 4)), ('E', 0)]
     if rng.random() < 0.5:
         c.plan.append(rng.choice([('T', float(t + 1)), ('S', 2), ('E', 9)]))
+    return c
+
+
+def gen_until_react(rng, cid):
+    """a split plan whose run(until=event) waits for an event that has waiters registered BEFORE run() is called, and those
+    waiters react at once: they start a process, interrupt a sleeper, trigger another event with its own waiter, create a
+    zero-delay timeout.  C03 "run(until=event) returns that event's value right after it is processed": none of these
+    reactions has taken effect when run() returns; they do when the run is resumed."""
+    c = Case(cid, 'plan')
+    t = rng.choice([0.5, 1, 1, 2])
+    main = []
+    c.progs.append(main)
+    c.mains.append((0, 1))
+    names = 600
+    kind = rng.random()
+    if kind < 0.45:
+        main.append(('timeout', 0, t, val(rng)))
+    elif kind < 0.75:
+        main.append(('event', 0))
+        c.progs.append([('timeout', 9, t, None), ('yield', 9, 0), ('succeed', 0, val(rng))])
+        c.mains.append((1, 2))
+    else:
+        names += 1
+        c.progs.append([('timeout', 9, t, None), ('yield', 9, 0), ('ret', val(rng))])
+        main.append(('spawn', 0, 1, names))
+    main.append(('event', 5))
+    # a sleeper to interrupt (slot 2), a waiter of the event the reactions trigger (slot 5)
+    names += 1
+    c.progs.append([('timeout', 8, 10, None), ('yield', 8, rng.choice([0, 0, 1, 2])), ('log', 60)])
+    main.append(('spawn', 2, len(c.progs) - 1, names))
+    c.progs.append([('yield', 5, 0), ('log', 61)])
+    c.mains.append((len(c.progs) - 1, 3))
+    helper = len(c.progs)
+    c.progs.append([('log', 62)] + ([('timeout', 7, rng.choice([0, 1]), None), ('yield', 7, 0), ('log', 63)] if rng.random() < 0.6 else []))
+    for j in range(rng.randint(1, 3)):
+        prog = []
+        if rng.random() < 0.3:
+            prog += [('timeout', 10 + j, rng.choice([0, 0.25]), None), ('yield', 10 + j, 0)]
+        prog.append(('yield', 0, 0))
+        for _ in range(rng.randint(1, 3)):
+            x = rng.random()
+            if x < 0.35:
+                names += 1
+                prog.append(('spawn', 20 + j, helper, names))
+            elif x < 0.65:
+                prog.append(('interrupt', 2, 30 + j))
+            elif x < 0.85:
+                prog.append(('succeed', 5, 40 + j))
+            else:
+                prog += [('timeout', 24 + j, 0, 50 + j), ('probe', 24 + j, 50 + j)]
+        prog.append(('log', 64 + j))
+        c.progs.append(prog)
+        c.mains.append((len(c.progs) - 1, 4 + j))
+    main += [('timeout', 6, t + rng.choice([1, 2]), 7), ('yield', 6, 0), ('log', 69)]
+    c.plan = [rng.choice([('S', rng.randint(len(c.mains), len(c.mains) + 6)), ('T', float(t) / 2), ('T', 0.25)]), ('E', 0)]
+    if rng.random() < 0.6:
+        c.plan.append(rng.choice([('S', 1), ('S', 3), ('T', float(t + 0.5)), ('E', 6), ('E', 5)]))
     return c
 
 
